@@ -41,6 +41,8 @@ def _case(draw):
     case["bg"] = draw(st.sampled_from([0.0, 1.5, -2.0, 400.0]))
     case["precision"] = draw(st.sampled_from(["double", "double", "double", "single"]))
     case["mp_array"] = draw(st.booleans())  # tower coordinates handed over as a NumPy array instead of a tuple
+    # height-independent profiles may also be solved with the closed form (analytic=True): the identity is the same
+    case["analytic"] = case["prof"]["kind"] == "const" and draw(st.booleans())
     # a tower between grid nodes (even grids only: the forward run is then re-centred on the tower by the solver itself
     # and its value at the domain centre, a node, is the field value at the tower)
     if case["nx"] % 2 == 0 and case["ny"] % 2 == 0 and draw(st.integers(0, 2)) == 0:
@@ -67,7 +69,9 @@ def check_case(case):
     lv = case["levels"]
     hv = case["halo"]["value"]
     single = case["precision"] == "single"
-    common = dict(modes=gen.modes_arg(case["modes"]), halo=hv, precision=case["precision"])
+    common = dict(modes=gen.modes_arg(case["modes"]), halo=hv, precision=case["precision"], analytic=bool(case.get("analytic")))
+    if case.get("analytic"):
+        out.label("analytic")
 
     whole = gen.halo_is_whole(case, hv)
     out.label(f"halo={case['halo']['kind']}", "halo-whole-cells" if whole else "halo-incommensurate",
